@@ -8,7 +8,8 @@ THEOREMS = ['C03_chain_spec', 'C03_chain_assert', 'C03_lalr_filters_copy', 'C03_
             'C03_shape_total', 'C03_placeholders_count', 'C03_earley_resolve_is_shape_of_derivation', 'C03_cnf_roundtrip_partial', 'C03_cyk_is_shape',
             'C03_engines_agree_partial', 'C03_cyk_chart_sound', 'C03_cyk_chart_complete', 'C03_cyk_chart_unique',
             'C03_cyk_returns_shape_of_derivation', 'C03_cyk_accepts_sentences', 'C03_cyk_unambiguous',
-            'C03_cnf_link', 'C03_cyk_engine', 'C03_find_rule_size', 'C03_maybe_untaken',
+            'C03_cnf_link', 'C03_cyk_engine', 'C03_to_cnf_closure', 'C03_to_cnf_shape', 'C03_cnf_roundtrip',
+            'C03_cyk_engine_to_cnf', 'C03_find_rule_size', 'C03_maybe_untaken',
             'C03_example_rule', 'C03_example_size', 'C03_example_derivation']
 GEN_DEPS = []
 RULE = ('(a) random compiled-rule records (0-5 symbols, terminals/rules, `_` names, filter_out, alias, template source, '
